@@ -1,4 +1,5 @@
 import F1Verif.Drive.Verdict
+import F1Verif.Drive.Distribution
 /-!
 Line-protocol driver (`f1model`). One case per line on stdin:
 
@@ -12,6 +13,8 @@ open F1.Drive
 def dispatch (op : String) : Option (List String → List String → Option (String × String)) :=
   match op with
   | "verdict" => some verdict
+  | "dist" => some dist
+  | "distsum" => some distsum
   | _ => none
 
 def handle (line : String) : String :=
